@@ -200,7 +200,7 @@ def evaluate(ctx, cases, cfgs):
 
 
 def run(ctx):
-    return evaluate(ctx, gen(ctx), ["dbg", "bmi2", "relbmi2"] if ctx.quick else ["dbg", "bmi2", "rel", "relbmi2"])
+    return evaluate(ctx, gen(ctx), ["dbg", "bmi2", "relbmi2", "clang"] if ctx.quick else ["dbg", "bmi2", "rel", "relbmi2", "clang"])
 
 
 def replay(ctx):
